@@ -261,7 +261,8 @@ def include_tree_cases(dangling=None, unknown=None):
                         c["defines"] = [d for d in c["defines"] if not d.startswith("SEL")] + [f'SEL="{draw(st.sampled_from([a, b]))}"']
         for cmds in plats.values():
             for c in cmds:
-                fo = sorted(quote_ok(c["file"].rsplit("/", 1)[0]))
+                # (found along the include directories; a name that only exists beside the main file is not found)
+                fo = sorted(angle_ok) * 3 + sorted(quote_ok(c["file"].rsplit("/", 1)[0]))
                 if fo and draw(st.integers(0, 5)) == 0:
                     # one or two forced includes, possibly the same header twice (include-once must hold)
                     c["forced"] = [draw(st.sampled_from(fo)) for _ in range(draw(st.sampled_from([1, 1, 2])))]
